@@ -72,6 +72,14 @@ Theorem C05_flag_error_anywhere : forall fixed sc, fa_parse (sc_args sc) = Flags
 Proof. exact flag_error_anywhere. Qed.
 Print Assumptions C05_flag_error_anywhere.
 
+(* a failed sh command without an exit code of its own (killed by a signal; not startable; exited 0 while c.Run()
+   failed with an error that is not an *exec.ExitError, e.g. the copy into the caller's io.Writer) is a plain error:
+   with C05_classes the process status is 1 - not the child's 0, not the wait status' -1 (255) *)
+Theorem C05_sh_without_exit_code : forall b, b = BSh CSignaled \/ b = BSh CNotStarted \/ b = BShCopyErr ->
+  run_body b = Returned VPlain /\ status b = 1 /\ wf_body b /\ ~ completes b /\ plain_failure b.
+Proof. exact sh_without_exit_code. Qed.
+Print Assumptions C05_sh_without_exit_code.
+
 (* what Parse accepts, as a readable description: usage / misuse / the selected command *)
 Theorem C05_parse : forall a,
   (snd (Parse a) = PErrHelp <-> shows_help a) /\
